@@ -154,6 +154,8 @@ pub fn dash_path(path: &Path, dash_array: &[f32], mut dash_offset: f32) -> Path 
                             first_dash = false;
                             dashed.move_to(seg.x, seg.y);
                         }
+                        // only the first dash is buffered for joining with the last one
+                        is_first_segment = false;
                         state.on = !state.on;
                         state.index += 1;
                         len -= state.remaining_length;
